@@ -6,6 +6,7 @@ import (
 	"os"
 	"path"
 	"path/filepath"
+	"strings"
 
 	zerr "github.com/DemoHn/Zn/pkg/error"
 	"github.com/DemoHn/Zn/pkg/io"
@@ -116,6 +117,14 @@ func (z *Interpreter) LoadFile(file string) *Interpreter {
 			case r.LIB_TYPE_VENDOR:
 			case r.LIB_TYPE_CUSTOM:
 				dirs := info.LibPath
+				// each part of A-B-C names ONE directory or file below the main file's
+				// directory: "A/B" would be a second name of the module A-B (loaded twice),
+				// ".." would leave the directory
+				for _, d := range dirs {
+					if d == "" || d == "." || d == ".." || strings.ContainsAny(d, "/\\") {
+						return nil, zerr.ModuleNotFound(info.OriginalName)
+					}
+				}
 				// add .zn for last item
 				dirs[len(dirs)-1] = dirs[len(dirs)-1] + ".zn"
 
